@@ -185,7 +185,7 @@ func checkC13(c *Ctx, e *Env) {
 		if !only {
 			why = ": reached without passing through CreateBatch by " + chain
 		}
-		c.Check(s.Kind == "insert" && only, "C13.BIND", funcKey(s.Fn)+"#BatchContract."+s.Method, p.Pos(s.Call.Pos()), "BatchContract is written only by Insert on call chains through the CreateBatch handler (whose bound row is checked below)"+why)
+		c.Check(s.Kind == "insert" && only, "C13.BIND", funcKey(s.Fn)+"#BatchContract."+s.Method, p.Pos(s.At()), "BatchContract is written only by Insert on call chains through the CreateBatch handler (whose bound row is checked below)"+why)
 	}
 	if h := r.byKey["base.CreateBatch"]; h != nil {
 		bad := ""
